@@ -156,7 +156,8 @@ def normalize_hostname(hostname, normalize_amp=True):
 
     pattern = IRRELEVANT_SUBDOMAIN_AMP_RE if normalize_amp else IRRELEVANT_SUBDOMAIN_RE
 
-    hostname = pattern.sub("", hostname)
+    # NOTE: a hostname made of nothing else (e.g. "www.") is kept as is
+    hostname = pattern.sub("", hostname) or hostname
 
     if normalize_amp and hostname.startswith("amp-"):
         hostname = hostname[4:]
@@ -410,11 +411,17 @@ def normalize_url(
         path = ""
 
     # Dropping irrelevant subdomains
+    # NOTE: a hostname made of nothing else (e.g. "www.") is kept as is
     if hostname and strip_irrelevant_subdomains:
-        hostname = re.sub(
-            IRRELEVANT_SUBDOMAIN_AMP_RE if normalize_amp else IRRELEVANT_SUBDOMAIN_RE,
-            "",
-            hostname,
+        hostname = (
+            re.sub(
+                IRRELEVANT_SUBDOMAIN_AMP_RE
+                if normalize_amp
+                else IRRELEVANT_SUBDOMAIN_RE,
+                "",
+                hostname,
+            )
+            or hostname
         )
 
     # Dropping scheme
